@@ -45,7 +45,13 @@ def run(tier, seed):
     N = 1400 if thorough else 360
     for _ in range(N):
         d = rnd.choice([1, 2, 3, 4, 5])
-        node = distgen.tree(rnd, d, rnd.choice([1, 2, 3]))
+        try:
+            node = distgen.tree(rnd, d, rnd.choice([1, 2, 3]))
+        except Exception as e:      # constructing a legal expression must not raise
+            st.case({"construct": repr(e)}, nontrivial=False)
+            st.disagree({"construct": True}, "constructible", repr(e), "constructor raised")
+            findings.append(Finding("C13", f"constructing a composed distribution raised {e!r}", {"kind": "construct"}, {"error": repr(e)}))
+            continue
         if not node.children:
             continue
         x = distgen.point(rnd, node, interior=rnd.random() < 0.7)
@@ -197,10 +203,17 @@ def run(tier, seed):
         dd = rnd.choice([1, 2, 3])
         n1 = distgen.leaf(rnd, dd, allow=("normaldiag", "laplace"), bounds_p=0.7)
         n2 = distgen.leaf(rnd, dd, allow=("normaldiag", "laplace", "uniform"), bounds_p=0.7)
-        br = D.BayesRule([n1.obj])
-        br.add_distribution(n2.obj)
-        # the parts are used again in a second composition (other order): it must see the parts as they were constructed
-        br2 = D.BayesRule([n2.obj, n1.obj])
+        try:
+            br = D.BayesRule([n1.obj])
+            br.add_distribution(n2.obj)
+            # the parts are used again in a second composition (other order): it must see the parts as they were constructed
+            br2 = D.BayesRule([n2.obj, n1.obj])
+        except Exception as e:
+            se.case({"kind": "add_distribution", "parts": [n1.desc, n2.desc]})
+            se.disagree({"parts": [n1.desc, n2.desc]}, "composable", repr(e), "BayesRule / add_distribution raised")
+            findings.append(Finding("C13", f"BayesRule / add_distribution of two legal parts raised {e!r}", {"kind": "additive", "problem": "composition raised"},
+                                    {"parts": [n1.desc, n2.desc], "error": repr(e)}))
+            continue
         damaged = distgen.intact_problems(n1, "first part") + distgen.intact_problems(n2, "second part")
         if damaged:
             findings.append(Finding("C13", "add_distribution / BayesRule changed a part: " + damaged[0], {"kind": "additive", "problem": "composing changed a part"},
